@@ -36,6 +36,7 @@ func run(r *vk.Run) {
 		"After every Update: response == next Get (or, if rejected, Get unchanged), other keys unchanged, and at the next quiescent point every open stream of that key whose masked view changed by a large step has received a change whose last value is the (projected) response and whose name is the Pull request's name; streams of other keys received nothing. "+
 		"After every masked Get / Pull open: the value equals the reference projection of the full Get, and the full Get is the same as before the read. "+
 		"History 0 of every triple is run by every worker first: a directed part (for every value the table lists as accepted by a business rule - preset names, mode ids - Update {field: value}, then a masked Get and a masked Pull for every mask path at or below that field) and one step of every operation class, so that a class that crashes the process or damages the server state is found early and (like a crashed class) not used again on that server. "+
+		"Forced windows (vk.Sched on the verif hooks, 4/60 repetitions per triple): a new Pull parked between snapshot and listener registration while an accepted large Update is started, and an Update parked between commit and publication while a new Pull is opened; after the release, at quiescence, the Update has returned, the stream ends on its response and Get equals it. "+
 		"A case is distinct by (server, triple, operation, value kind, mask class and paths, outcome code, top-level fields that changed, stream configuration) and non-trivial when it reaches the server (every counted case does).",
 		"reference projection is vk.RefProject (independent of pkg/masks); read masks are valid paths only and never contain a path together with one of its descendants (invalid read masks and parent+child masks are C06's subject)",
 		"'changes the value beyond the tolerance' is decided on the observed values: a non-float leaf differs, or a float leaf differs by >= 1 (configured tolerances in pkg/trait models with a triple: 0.01 absolute); smaller changes may or may not be delivered",
@@ -60,6 +61,28 @@ func run(r *vk.Run) {
 		}
 		runHistory(r, t, 0, true)
 	}
+	// forced windows (deterministic schedules): every triple x 2 windows x repetitions, dealt over the workers
+	sched := vk.NewSched()
+	reps := r.Pick(4, 60)
+	fno := 0
+	for rep := 0; rep < reps; rep++ {
+		for _, t := range targets {
+			for win := range forcedWindows {
+				fno++
+				if !r.Mine(fno) || !r.Selected(t.base) {
+					continue
+				}
+				runForced(r, sched, t, win, rep)
+			}
+		}
+	}
+	for _, w := range forcedWindows {
+		r.Require("checked/"+w.name, len(targets)*reps*3/4)
+		for _, t := range targets {
+			r.Require("checked/"+w.name+"/"+t.e.id+"/"+t.tr.x, reps/2)
+		}
+	}
+
 	per := r.Pick(70, 9000)
 	caseNo := 0
 	for hno := 1; hno <= per; hno++ {
